@@ -5,7 +5,9 @@ from .. import vlib
 TRUSTED = [
     "Lean 4.33 kernel; axioms per theorem listed under coverage.axioms (subset of propext, Classical.choice, Quot.sound)",
     "translate/serialops.py (clang++-14 record layouts + token-level scan of serializeOp / operator== bodies -> Gen/SerialClasses.lean)",
-    "harness/serial.cpp, serial_codec.hpp, serial_objects.hpp, serial_probes.hpp + lib/vlib.py differ; model driver (compiled Lean)",
+    "harness/serial.cpp, serial_codec.hpp, serial_objects.hpp, serial_probes.hpp, serial_flags.hpp + lib/vlib.py differ; model driver (compiled Lean)",
+    "harness/serial_bitsets.cpp compiles opm/common/utility/MemPacker.cpp of the working tree a second time to instantiate the bitset packer for "
+    "widths the library lacks (1, 8, 16, 32, 33, 64); it replaces the archive member MemPacker.o in the harness binary (same source file)",
     "modelled, not verified: the C++ has no bounds checks on UNPACK (short buffer / bool byte other than 0,1 is UB there, an error in the model); "
     "memcpy packing of padded PODs; HAVE_DUNE branches; "
     "pointer layer: the addresses make_shared returns are a parameter (assumed injective = distinct live objects), a buffer whose pointee "
